@@ -442,7 +442,7 @@ func (g *pgen) genText() {
 		}
 	}
 	for _, sz := range []int{1, 2, 11, 12, 13, 1024} {
-		for _, cs := range []string{"ab", "abcdefghijklmnopqrstuvwxyz", "é日😀", "x"} {
+		for _, cs := range []string{"ab", "abcdefghijklmnopqrstuvwxyz", "é日😀", "xyz"} {
 			g.add("strings.Random", fmt.Sprintf("%d,%s", sz, hx(cs)), hxs("a", "b", "c"))
 			g.add("bytes.Random", fmt.Sprintf("%d,%s", sz, hx(cs)), hxs("a", "b"))
 		}
